@@ -438,6 +438,30 @@ void vd_gram_random(vh_rng *r, int lang, int kind, double transcript_bias, vd_gr
         for (k2 = 0; k2 < nw; ++k2) { int lab = vfsa_label(&g->truth, W[k2]); vh_sb_printf(&g->text, "%s %s", k2 ? " |" : "", W[k2]); vfsa_add(&g->truth, 0, 1, lab, 0); vfsa_add(&g->truth, 1, 1, lab, 0); }
         vh_sb_printf(&g->text, " )+;\n");
         snprintf(g->desc, sizeof(g->desc), "JSGF word loop over %d words%s", nw, with_tr ? " (incl. the transcript words)" : "");
+    } else if (kind == VG_JSGF_SLOTS && vh_chance(r, 0.2) && nv >= 4) {
+        /* one named rule referenced from two alternatives with different words before and after it: each reference stands for its own
+         * copy of the rule, so "h1 <r> t2" is no sentence.  With the transcript the recording reads as exactly such a crossing
+         * (head of one alternative, tail of the other). */
+        const char *h1, *h2, *x1, *x2, *x3, *t1a, *t1b, *t2a, *t2b; int q, base, st;
+        const char *pick[9];
+        for (q = 0; q < 9; ++q) pick[q] = V[vh_below(r, (uint32_t)nv)];
+        h1 = pick[0]; h2 = pick[1]; x1 = pick[2]; x2 = pick[3]; x3 = pick[4]; t1a = pick[5]; t1b = pick[6]; t2a = pick[7]; t2b = pick[8];
+        if (with_tr) { h1 = tr[0]; x1 = tr[1]; t2a = tr[2]; t2b = tr[3]; }
+        if (!strcmp(h1, h2)) h2 = V[(vh_below(r, (uint32_t)nv))];
+        vh_sb_printf(&g->text, "#JSGF V1.0;\ngrammar sub;\npublic <top> = %s <r> %s %s | %s <r> %s [ %s ];\n<r> = %s | %s %s;\n", h1, t1a, t1b, h2, t2a, t2b, x1, x2, x3);
+        vfsa_init(&g->truth, 16, 0, 15);
+        for (q = 0; q < 2; ++q) {
+            base = 1 + q * 6;   /* base: after head; base+1: after <r>; base+2: inside <r>; base+3: after first tail word */
+            vfsa_add(&g->truth, 0, base, vfsa_label(&g->truth, q ? h2 : h1), 0);
+            vfsa_add(&g->truth, base, base + 1, vfsa_label(&g->truth, x1), 0);
+            vfsa_add(&g->truth, base, base + 2, vfsa_label(&g->truth, x2), 0); vfsa_add(&g->truth, base + 2, base + 1, vfsa_label(&g->truth, x3), 0);
+            vfsa_add(&g->truth, base + 1, base + 3, vfsa_label(&g->truth, q ? t2a : t1a), 0);
+            vfsa_add(&g->truth, base + 3, 15, vfsa_label(&g->truth, q ? t2b : t1b), 0);
+            if (q) vfsa_add(&g->truth, base + 3, 15, VF_EPS, 0);
+        }
+        (void)st;
+        vh_count("jsgf_grammars_with_a_rule_referenced_in_two_contexts", 1);
+        snprintf(g->desc, sizeof(g->desc), "JSGF: rule <r> referenced from two alternatives with different heads and tails%s", with_tr ? " (the transcript is a crossing of the two)" : "");
     } else if (kind == VG_JSGF_SLOTS) {
         int ns = vh_range(r, 1, 5), s, st = 0;
         vfsa_init(&g->truth, 64, 0, 0);
